@@ -239,6 +239,8 @@ def run_race(case, inject=None, after_complete_grace=True, collect_metrics=False
     world.install(w)
     world.register()
     random.seed(case.get("seed", 0))
+    if any(leaf.get("op_type") == "sim-op-completing" for _, leaf in leaves(case["schedule"])):
+        world.register_completing_runner()
     for _, leaf in leaves(case["schedule"]):
         w.tasks[leaf["name"]] = {"requests": leaf["requests"], "stride": leaf.get("stride", 7), "source-size": leaf.get("source_size")}
     schedule = build_schedule(case["schedule"])
@@ -505,6 +507,8 @@ def run_full_race(case, fault=None):
     world.install(w)
     world.register()
     random.seed(case.get("seed", 0))
+    if any(leaf.get("op_type") == "sim-op-completing" for _, leaf in leaves(case["schedule"])):
+        world.register_completing_runner()
     for _, leaf in leaves(case["schedule"]):
         w.tasks[leaf["name"]] = {"requests": leaf["requests"], "stride": leaf.get("stride", 7), "source-size": leaf.get("source_size")}
     schedule = build_schedule(case["schedule"])
